@@ -172,6 +172,17 @@ pub fn gen_value(r: &mut Rng, depth: u32) -> BValue {
 pub fn gen15(r: &mut Rng, n: usize) -> Vec<String> {
     let mut out = vec![];
     for k in 0..n {
+        if k % 10 == 0 {
+            // the codec is a function of its input alone: rejected documents decoded in between (errors raised deep inside
+            // open lists and dictionaries) must leave no trace on the round trips that follow
+            let depth = 3 + r.below(6) as usize;
+            let mut bad: Vec<u8> = vec![];
+            for j in 0..depth {
+                bad.extend_from_slice(if j % 2 == 0 { b"l" } else { b"d1:k" });
+            }
+            bad.extend_from_slice(*r.pick(&[&b"5:ab"[..], b"x", b"i-0e", b"1x", b"i1"]));
+            out.push(format!("dec {}", hex(&bad)));
+        }
         let depth = 1 + (r.below(5) as u32);
         let v = gen_value(r, depth);
         if k % 3 == 2 {
